@@ -154,4 +154,220 @@ theorem pumpRead_spec (limit : Nat) (env : List Nat) (c : Conn) (hinv : RInv lim
       rw [hsame2.2.2.2.1] at o3
       exact ⟨o1.trans hun2, o2, o3⟩
 
+/-! ## write side -/
+
+theorem consume_cap (b : BB) (n : Nat) : (b.consume n).cap = b.cap := by
+  simp only [BB.consume]; split <;> (try split) <;> rfl
+
+/-- Consuming `n` bytes of a fully committed buffer drops them from the front. -/
+theorem consume_committed (b : BB) (n : Nat) (hri : b.ri = b.data.length) (hn : n ≤ b.data.length) :
+    (b.consume n).data = b.data.drop n ∧ (b.consume n).ri = b.data.length - n := by
+  simp only [BB.consume, BB.readLen, hri]
+  by_cases h0 : n = 0
+  · simp [h0, hri]
+  · have : min n b.data.length = n := by omega
+    simp only [h0, if_false, this]
+    rw [if_pos (by omega)]
+    exact ⟨rfl, rfl⟩
+
+/-- `memStream.pumpWrite` + completion callback on a pending `AsyncWriteAll` of the whole destination buffer. -/
+theorem pumpWrite_spec (c : Conn) (pw : PW) (hw : c.wpend = some pw) (hbuf : pw.buf = c.dst.data)
+    (hri : c.dst.ri = c.dst.data.length) (hdone : pw.done ≤ pw.buf.length) :
+    SameR c (pumpWrite c).1 ∧ (pumpWrite c).1.dst.cap = c.dst.cap ∧
+    (((pumpWrite c).2 = { stat := .done, n := pw.buf.length, err := .nil, out := pw.buf.drop pw.done, rlen := 0, wlen := 0 } ∧
+        (pumpWrite c).1.dst.data = [] ∧ (pumpWrite c).1.dst.ri = 0 ∧ (pumpWrite c).1.wpend = none) ∨
+     (∃ d', pw.done ≤ d' ∧ d' < pw.buf.length ∧
+        (pumpWrite c).2 = { stat := .pending, n := 0, err := .nil, out := (pw.buf.drop pw.done).take (d' - pw.done),
+                            rlen := c.dst.ri, wlen := 0 } ∧
+        (pumpWrite c).1.dst = c.dst ∧ (pumpWrite c).1.wpend = some { buf := pw.buf, done := d' })) := by
+  obtain ⟨l1, l2, l3, l4⟩ := pumpLoop_spec c.tr.plan (pw.buf.drop pw.done) pw.done
+  have hlen : (pw.buf.drop pw.done).length = pw.buf.length - pw.done := List.length_drop
+  unfold pumpWrite
+  rw [hw]
+  simp only
+  generalize hpl : pumpLoop c.tr.plan (pw.buf.drop pw.done) pw.done = o at *
+  obtain ⟨r, d', plan'⟩ := o
+  simp only at l1 l2 l3 l4
+  cases r with
+  | some total =>
+    obtain ⟨t1, t2⟩ := l3 total rfl
+    have ht : total = pw.buf.length := by omega
+    obtain ⟨hc1, hc2⟩ := consume_committed c.dst total hri (by rw [ht, hbuf]; exact Nat.le_refl _)
+    have hc1' : (c.dst.consume total).data = [] := by rw [hc1, ht, hbuf]; simp
+    have hc2' : (c.dst.consume total).ri = 0 := by rw [hc2, ht, hbuf]; simp
+    refine ⟨⟨rfl, rfl, rfl, rfl, rfl⟩, consume_cap _ _, Or.inl ⟨?_, hc1', hc2', rfl⟩⟩
+    simp only [wobs, BB.readLen, BB.writeLen, hc1', hc2']
+    have : (pw.buf.drop pw.done).take (d' - pw.done) = pw.buf.drop pw.done := by
+      apply List.take_of_length_le; omega
+    rw [this, ht]; rfl
+  | none =>
+    have := l4 rfl
+    refine ⟨⟨rfl, rfl, rfl, rfl, rfl⟩, rfl, Or.inr ⟨d', l1, by omega, ?_, rfl, rfl⟩⟩
+    simp only [wobs, BB.readLen, BB.writeLen, hri]
+    simp
+
+/-- `Encode` followed by `Commit(WriteLen())` on a fully committed buffer: the frame is appended and committed. -/
+theorem encode_commit (limit slack : Nat) (b : BB) (p : Bytes) (hri : b.ri = b.data.length)
+    (hcap : b.data.length ≤ b.cap) (hp : ¬ p.length > limit) :
+    ∃ b', encode limit slack b p = (b', .ok) ∧ (b'.commit b'.writeLen).data = b.data ++ frame p ∧
+      (b'.commit b'.writeLen).ri = (b.data ++ frame p).length ∧
+      (b'.commit b'.writeLen).data.length ≤ (b'.commit b'.writeLen).cap ∧
+      (b'.commit b'.writeLen).view = b.data ++ frame p := by
+  obtain ⟨b', he, hd, hr, hc⟩ := encode_ok limit slack b p hcap hp
+  have hfl : (frame p).length = 4 + p.length := by simp [frame, be32]; omega
+  have hwl : b'.writeLen = 4 + p.length := by
+    simp only [BB.writeLen, hd, hr, hri, List.length_append, hfl]; omega
+  have hcm : b'.commit b'.writeLen = { b' with ri := b'.data.length } := by
+    simp only [BB.commit, hwl]
+    rw [if_neg (by omega)]
+    simp only [hd, hr, hri, List.length_append, hfl]
+    congr 1; omega
+  refine ⟨b', he, ?_, ?_, ?_, ?_⟩
+  · rw [hcm]; exact hd
+  · rw [hcm]; show b'.data.length = _; rw [hd]
+  · rw [hcm]; exact hc
+  · rw [hcm]; simp only [BB.view]; rw [List.take_length]; exact hd
+
+/-- The monitor fields the write side never touches. -/
+def SameRS (s s' : S) : Prop :=
+  s'.limit = s.limit ∧ s'.inb = s.inb ∧ s'.eof = s.eof ∧ s'.rpend = s.rpend ∧ s'.cap = s.cap ∧ s'.rejected = s.rejected
+
+theorem take_isPrefixOf (l : Bytes) (n : Nat) : (l.take n).isPrefixOf l = true :=
+  List.isPrefixOf_iff_prefix.mpr (List.take_prefix n l)
+
+theorem self_isPrefixOf (l : Bytes) : l.isPrefixOf l = true :=
+  List.isPrefixOf_iff_prefix.mpr (List.prefix_refl l)
+
+/-- `pump`, write side. -/
+theorem onPumpWrite_refines (c : Conn) (s : S) (hW : RW c s) :
+    ∃ s', onPumpWrite s (pumpWrite c).2 = some s' ∧ RW (pumpWrite c).1 s' ∧ SameR c (pumpWrite c).1 ∧ SameRS s s' := by
+  cases hw : c.wpend with
+  | none =>
+    obtain ⟨i1, i2⟩ := hW.idle hw
+    have hp : pumpWrite c = (c, wobs c .none 0 .nil []) := by simp [pumpWrite, hw]
+    rw [hp]
+    refine ⟨s, ?_, hW, ⟨rfl, rfl, rfl, rfl, rfl⟩, ⟨rfl, rfl, rfl, rfl, rfl, rfl⟩⟩
+    simp [onPumpWrite, wobs, i1]
+  | some pw =>
+    obtain ⟨b1, b2, b3, b4⟩ := hW.busy pw hw
+    obtain ⟨hsame, hcap, hcase⟩ := pumpWrite_spec c pw hw b2 hW.ri b3
+    rcases hcase with ⟨ho, hd, hr, hwp⟩ | ⟨d', hd1, hd2, ho, hdst, hwp⟩
+    · rw [ho]
+      refine ⟨{ s with owed := [], wpend := none }, ?_, ⟨by rw [hr, hd]; rfl, by rw [hd]; exact Nat.zero_le _, fun _ => ⟨rfl, hd.symm⟩, fun pw' hp => by rw [hwp] at hp; cases hp⟩, hsame,
+        ⟨rfl, rfl, rfl, rfl, rfl, rfl⟩⟩
+      simp only [onPumpWrite, b1, writeDone, b4, self_isPrefixOf]
+      simp; omega
+    · rw [ho]
+      have hlen : (pw.buf.drop pw.done).length = pw.buf.length - pw.done := List.length_drop
+      have htl : ((pw.buf.drop pw.done).take (d' - pw.done)).length = d' - pw.done := List.length_take_of_le (by omega)
+      refine ⟨{ s with owed := pw.buf.drop d' }, ?_, ⟨by rw [hdst]; exact hW.ri, by rw [hdst]; exact hW.cap, (fun hn => by rw [hwp] at hn; cases hn), ?_⟩, hsame,
+        ⟨rfl, rfl, rfl, rfl, rfl, rfl⟩⟩
+      · simp only [onPumpWrite, b1, b4, take_isPrefixOf, htl, List.drop_drop]
+        have : pw.done + (d' - pw.done) = d' := by omega
+        simp only [this, if_true]
+      · intro pw' hp
+        rw [hwp] at hp
+        injection hp with hp
+        subst hp
+        exact ⟨b1, by rw [hdst]; exact b2, by show d' ≤ pw.buf.length; omega, rfl⟩
+
+/-- `WriteNext`. -/
+theorem writeNext_refines (limit slack : Nat) (c : Conn) (s : S) (p : Bytes) (hW : RW c s) (hlim : s.limit = limit) :
+    ∃ s', Spec.FrameCodec.step s (.write p) (.w (writeNext limit slack c p).2) = some s' ∧ RW (writeNext limit slack c p).1 s' ∧
+      SameR c (writeNext limit slack c p).1 ∧ SameRS s s' := by
+  cases hw : c.wpend with
+  | some pw =>
+    obtain ⟨b1, _, _, _⟩ := hW.busy pw hw
+    have hp : writeNext limit slack c p = (c, wobs c .busy 0 .nil []) := by simp [writeNext, hw]
+    rw [hp]
+    exact ⟨s, by simp [Spec.FrameCodec.step, wobs, b1], hW, ⟨rfl, rfl, rfl, rfl, rfl⟩, ⟨rfl, rfl, rfl, rfl, rfl, rfl⟩⟩
+  | none =>
+    obtain ⟨i1, i2⟩ := hW.idle hw
+    by_cases hbig : p.length > limit
+    · have hp : writeNext limit slack c p = (c, wobs c .done 0 .toobig []) := by
+        simp [writeNext, hw, encode_big limit slack c.dst p hbig]
+      rw [hp]
+      refine ⟨s, ?_, hW, ⟨rfl, rfl, rfl, rfl, rfl⟩, ⟨rfl, rfl, rfl, rfl, rfl, rfl⟩⟩
+      simp [Spec.FrameCodec.step, wobs, i1, hlim, hbig]
+    · obtain ⟨b', he, hd, hr, hc, hv⟩ := encode_commit limit slack c.dst p hW.ri hW.cap hbig
+      obtain ⟨l1, l2, l3, l4⟩ := writeLoop_spec c.tr.plan (c.dst.data ++ frame p) 0
+      unfold writeNext
+      simp only [hw, Option.isSome_none, Bool.false_eq_true, if_false, he, hv]
+      generalize hwl : writeLoop c.tr.plan (c.dst.data ++ frame p) 0 = o at *
+      obtain ⟨w, e, plan'⟩ := o
+      simp only at l1 l2 l3 l4 ⊢
+      generalize b'.commit b'.writeLen = bb at *
+      have hwle : w ≤ bb.data.length := by rw [hd]; omega
+      obtain ⟨hc1, hc2⟩ := consume_committed bb w (by rw [hr, hd]) hwle
+      have htl : ((c.dst.data ++ frame p).take w).length = w := List.length_take_of_le (by omega)
+      refine ⟨{ s with owed := (c.dst.data ++ frame p).drop w, wpend := none }, ?_,
+        ⟨by rw [hc1, hc2]; simp, by rw [consume_cap, hc1]; simp; omega, fun _ => ⟨rfl, by rw [hc1, hd]⟩, fun pw hp => by cases hp⟩,
+        ⟨rfl, rfl, rfl, rfl, rfl⟩, ⟨rfl, rfl, rfl, rfl, rfl, rfl⟩⟩
+      simp only [Spec.FrameCodec.step, wobs, i1, hlim, i2, Option.isSome_none, Bool.false_eq_true, if_false, hbig, writeDone,
+        take_isPrefixOf, htl, BB.readLen, BB.writeLen, hc1, hc2, true_and]
+      rw [if_pos]
+      refine ⟨l3, fun h => ?_⟩
+      have hw' := l4 h
+      rw [hd]
+      have : w = (c.dst.data ++ frame p).length := by omega
+      subst this
+      simp only [List.take_length, List.drop_length, List.length_nil, Nat.sub_self, and_self]
+
+/-- `AsyncWriteNext`. -/
+theorem asyncWriteNext_refines (limit slack : Nat) (c : Conn) (s : S) (p : Bytes) (hW : RW c s) (hlim : s.limit = limit) :
+    ∃ s', Spec.FrameCodec.step s (.awrite p) (.w (asyncWriteNext limit slack c p).2) = some s' ∧
+      RW (asyncWriteNext limit slack c p).1 s' ∧ SameR c (asyncWriteNext limit slack c p).1 ∧ SameRS s s' := by
+  cases hw : c.wpend with
+  | some pw =>
+    obtain ⟨b1, _, _, _⟩ := hW.busy pw hw
+    have hp : asyncWriteNext limit slack c p = (c, wobs c .busy 0 .nil []) := by simp [asyncWriteNext, hw]
+    rw [hp]
+    exact ⟨s, by simp [Spec.FrameCodec.step, wobs, b1], hW, ⟨rfl, rfl, rfl, rfl, rfl⟩, ⟨rfl, rfl, rfl, rfl, rfl, rfl⟩⟩
+  | none =>
+    obtain ⟨i1, i2⟩ := hW.idle hw
+    by_cases hbig : p.length > limit
+    · have hp : asyncWriteNext limit slack c p = (c, wobs c .done 0 .toobig []) := by
+        simp [asyncWriteNext, hw, encode_big limit slack c.dst p hbig]
+      rw [hp]
+      refine ⟨s, ?_, hW, ⟨rfl, rfl, rfl, rfl, rfl⟩, ⟨rfl, rfl, rfl, rfl, rfl, rfl⟩⟩
+      simp [Spec.FrameCodec.step, wobs, i1, hlim, hbig]
+    · obtain ⟨b', he, hd, hr, hc, hv⟩ := encode_commit limit slack c.dst p hW.ri hW.cap hbig
+      unfold asyncWriteNext
+      simp only [hw, Option.isSome_none, Bool.false_eq_true, if_false, he, hv]
+      generalize b'.commit b'.writeLen = bb at *
+      generalize hc' : ({ c with dst := bb, wpend := some { buf := c.dst.data ++ frame p, done := 0 } } : Conn) = c1
+      have e_dst : c1.dst = bb := by rw [← hc']
+      have e_wp : c1.wpend = some { buf := c.dst.data ++ frame p, done := 0 } := by rw [← hc']
+      have e_same : SameR c c1 := by rw [← hc']; exact ⟨rfl, rfl, rfl, rfl, rfl⟩
+      by_cases hdf : c.tr.deferW = true
+      · simp only [hdf, if_true]
+        refine ⟨{ s with owed := c.dst.data ++ frame p, wpend := some (c.dst.data ++ frame p).length }, ?_,
+          ⟨(by rw [e_dst, hr, hd]), (by rw [e_dst]; exact hc), (fun hn => by rw [e_wp] at hn; cases hn), ?_⟩, e_same, ⟨rfl, rfl, rfl, rfl, rfl, rfl⟩⟩
+        · simp [Spec.FrameCodec.step, wobs, i1, hlim, i2, hbig]
+        · intro pw hp
+          rw [e_wp] at hp; injection hp with hp; subst hp
+          exact ⟨rfl, by rw [e_dst, hd], Nat.zero_le _, rfl⟩
+      · simp only [hdf, Bool.false_eq_true, if_false]
+        obtain ⟨hsame, hcap, hcase⟩ := pumpWrite_spec c1 _ e_wp (by rw [e_dst, hd]) (by rw [e_dst, hr, hd]) (Nat.zero_le _)
+        have hsameR : SameR c (pumpWrite c1).1 := by
+          obtain ⟨a1, a2, a3, a4, a5⟩ := e_same
+          obtain ⟨b1, b2, b3, b4, b5⟩ := hsame
+          exact ⟨b1.trans a1, b2.trans a2, b3.trans a3, b4.trans a4, b5.trans a5⟩
+        simp only [List.drop_zero, Nat.sub_zero] at hcase
+        rcases hcase with ⟨ho, hd', hr', hwp⟩ | ⟨d', hd1, hd2, ho, hdst, hwp⟩
+        · rw [ho]
+          refine ⟨{ s with owed := [], wpend := none }, ?_,
+            ⟨(by rw [hr', hd']; rfl), (by rw [hd']; exact Nat.zero_le _), (fun _ => ⟨rfl, hd'.symm⟩), (fun pw' hp => by rw [hwp] at hp; cases hp)⟩,
+            hsameR, ⟨rfl, rfl, rfl, rfl, rfl, rfl⟩⟩
+          simp [Spec.FrameCodec.step, i1, hlim, i2, hbig, writeDone, self_isPrefixOf]
+        · rw [ho]
+          have htl : ((c.dst.data ++ frame p).take d').length = d' := List.length_take_of_le (by omega)
+          refine ⟨{ s with owed := (c.dst.data ++ frame p).drop d', wpend := some (c.dst.data ++ frame p).length }, ?_,
+            ⟨(by rw [hdst, e_dst, hr, hd]), (by rw [hdst, e_dst]; exact hc), (fun hn => by rw [hwp] at hn; cases hn), ?_⟩,
+            hsameR, ⟨rfl, rfl, rfl, rfl, rfl, rfl⟩⟩
+          · simp [Spec.FrameCodec.step, i1, hlim, i2, hbig, take_isPrefixOf, htl]
+          · intro pw' hp
+            rw [hwp] at hp; injection hp with hp; subst hp
+            exact ⟨rfl, by rw [hdst, e_dst, hd], Nat.le_of_lt hd2, rfl⟩
+
 end Sonic.Lemmas.FrameCodec
